@@ -60,7 +60,7 @@ func runC07(c *Ctx) error {
 	if !c.quick() {
 		iters = 3000
 	}
-	endings := []string{"peerclose", "protoerr", "eof", "handlerclose", "toolarge", "truncated"}
+	endings := []string{"peerclose", "protoerr", "eof", "handlerclose", "toolarge", "truncated", "crossedclose"}
 	for it := 0; it < iters; it++ {
 		server := it%2 == 0
 		parallel := it%3 != 0
@@ -117,9 +117,13 @@ func runC07(c *Ctx) error {
 		case "handlerclose":
 			h.closeAt = sent[len(sent)/2]
 			wantAll = false
+		case "crossedclose":
+			// the handler answers the last message with a local close while the peer's Close frame is already buffered
+			h.closeAt = sent[len(sent)-1]
+			stream = append(stream, encodeFrame(frameSpec{Fin: true, Opcode: 8, Masked: masked, Key: [4]byte{5, 5, 5, 5}, Payload: []byte{0x03, 0xe8}, DeclLen: -1})...)
 		}
 		stream = append(stream, dataFrame(2, true, masked, []byte("never delivered"))...)
-		if ending == "eof" || ending == "truncated" || ending == "handlerclose" {
+		if ending == "eof" || ending == "truncated" || ending == "handlerclose" || ending == "crossedclose" {
 			stream = stream[:len(stream)-len(dataFrame(2, true, masked, []byte("never delivered")))]
 		}
 		tap.feed(cutChunks(c, stream, it%3)...)
@@ -237,7 +241,7 @@ func runC07(c *Ctx) error {
 			}
 		}
 		// translator validation for sequential sessions in which the handler does nothing but record
-		if !parallel && ending != "handlerclose" {
+		if !parallel && ending != "handlerclose" && ending != "crossedclose" {
 			obs := VL{}
 			for _, code := range seq.snapshot() {
 				obs = append(obs, VN(code))
